@@ -36,7 +36,9 @@ PROP = {'lean_props': ['Comrak.Props.C06'],
              'equality in K; linearity of the block parser and of the whole inline loop is measured by the search stage (deterministic step '
              'counters on input families, always at full volume), not proved',
  'trusted_base': ['the step counters count what the hook lines bump (one per loop iteration / byte scanned in the instrumented loops); work done '
-                  'outside the instrumented loops is only seen by the wall-clock backstop of the isolated worker',
+                  'outside the instrumented loops is seen by the instruction-count stage (valgrind cachegrind without cache simulation: the number of '
+                  'instructions executed by one worker process on one input, a deterministic quantity) on the payload-context and nesting families, '
+                  'and otherwise only by the wall-clock backstop of the isolated worker; valgrind is trusted to count instructions',
                   'backticks_pos_linear is proved for the positional memo model btStepsPos (run-level: gaps and run lengths); that this model '
                   'counts what the code counts is the K stage (equality with the real backtick-scan counter on exhaustive short and random '
                   'texts), and the 3n bound is checked again on every one of those texts',
@@ -68,8 +70,8 @@ TEXT = {'text': 'Proof (partial). Lean proves: escape and escape_href write at m
          'are parsed and rendered (HTML, CommonMark, XML) under default, GFM and all-extensions options in isolated workers; the log-log slope '
          'of the 12 summed step counters between the two largest n must stay <= 1.25 and output <= 160 n + 4096. Four super-linear classes of '
          'the pinned tree are listed as known findings (code-dollar scanner, math-dollar scanner with escaped dollars, recursive e-mail autolink '
-         'pass, emphasis opener search under the rule of three).',
- 'note': 'Trusted: Lean kernel + standard axioms; harness, worker protocol, hook lines; un-instrumented work is covered by wall clock only.',
+         'pass, emphasis opener search under the rule of three). Instruction counts: for 20 payload contexts (link destination, title, info string, reference label and definition, autolink, code span, alert title, wikilink, HTML attribute, heading, table cell, footnote label, task item, math, description details) filled with n copies of a fragment, and for the curated nesting shapes, one worker process per input is run under valgrind (cachegrind, no cache simulation) at n = 6000 and 12000 and the log-log slope of the executed instructions above the empty-document run must stay <= 1.40: this sees copying, memmove, hashing and formatting that no step counter sits in (it found the nested footnote-label finding, and it is what reports a quadratic helper under the cleaning functions).',
+ 'note': 'Trusted: Lean kernel + standard axioms; harness, worker protocol, hook lines, valgrind instruction counts; work outside the hooked loops is covered by instruction counts on the payload-context and nesting families and by wall clock elsewhere.',
  'technique': 'Lean 4 cost models with proved bounds + step-counter correspondence through cfg(comrak_verif) hooks + growth-exponent search on '
               'input families in isolated processes',
  'design_ref': 'DESIGN.md section 7, C06'}
